@@ -51,7 +51,11 @@ func BigDecimalFloatToBigInt(value *apd.Decimal, maxBase10Exponent int) (*big.In
 	}
 	exp := big.NewInt(int64(value.Exponent))
 	exp.Exp(common.BigInt10, exp, nil)
-	return exp.Mul(exp, &value.Coeff), nil
+	result := exp.Mul(exp, &value.Coeff)
+	if value.Negative {
+		result.Neg(result)
+	}
+	return result, nil
 }
 
 func BigDecimalFloatToUint(value *apd.Decimal) (uint64, error) {
